@@ -439,8 +439,8 @@ func (g *c19G) validFields(r c19Route, scenarioName string) []c19KV {
 				v = g.oneOf("flt", "0", "-1", "1e308", "-1e308", "1e-320", "2")
 			}
 		case "vec":
-			if g.chance("altvec", 1, 4) {
-				v = g.oneOf("vv", `[0,0,0]`, `[1,2,3]`, `[-1,0.5,1e-3]`, `[1e38,1e38,1e38]`, `[1,2]`, `[0.1,0.2,0.3,0.4]`, `[-0.0,1e-45,3.4e38]`)
+			if g.chance("altvec", 1, 3) {
+				v = g.oneOf("vv", `[1,2]`, `[0.1,0.2,0.3,0.4]`, `[0,0,0]`, `[1,2,3]`, `[7]`, `[-1,0.5,1e-3]`, `[1e38,1e38,1e38]`, `[-0.0,1e-45,3.4e38]`)
 			}
 		case "str":
 			switch f.N {
@@ -878,6 +878,7 @@ func c19GenCase() *rapid.Generator[c19Case] {
 				c.Reqs = append(c.Reqs, g.request(g.weightedRoute(), "", true))
 			}
 		}
+		g.knownCase(&c)
 		c.excluded = g.excluded
 		return c
 	})
